@@ -367,6 +367,22 @@ def _gate_shape():
     facts.append(('config-channel-checks-each', ok_loop))
     cfgsrc = ast.unparse(ct)
     facts.append(('config-set-only-in-setvalue', cfgsrc.count('.set(') == 1 and cfgsrc.count('.setValue(') == 0))
+    # Channel.capability add/remove: the capability argument is ALWAYS qualified with the channel the caller was
+    # checked for (so `#b,op` given to an #a op becomes the #a capability `#a,#b,op`); set/unset edit that channel's record
+    cht = parse('plugins/Channel/plugin.py')
+    capcls = None
+    for n in ast.walk(cht):
+        if isinstance(n, ast.ClassDef) and n.name == 'capability':
+            capcls = n
+    ok_q = False
+    if capcls is not None:
+        fns = {f.name: ast.unparse(f) for f in capcls.body if isinstance(f, ast.FunctionDef)}
+        ok_q = all(k in fns for k in ('add', 'remove', 'set', 'unset')) \
+            and 'c = ircdb.makeChannelCapability(channel, c)\n        user.addCapability(c)' in fns['add'] \
+            and 'cap = ircdb.makeChannelCapability(channel, c)' in fns['remove'] and 'user.removeCapability(cap)' in fns['remove'] \
+            and all('ircdb.channels.getChannel(channel)' in fns[k] and 'ircdb.channels.setChannel(channel, chan)' in fns[k] for k in ('set', 'unset')) \
+            and all('isChannelCapability' not in fns[k] for k in ('add', 'remove', 'set', 'unset'))
+    facts.append(('chancap-args-qualified', ok_q))
     # Owner.doPrivmsg: ignore test precedes tokenising / dispatch
     ot = parse('plugins/Owner/plugin.py')
     d = find_func(ot, 'doPrivmsg', cls='Owner')
